@@ -29,3 +29,10 @@ Theorem C06_select_all : forall d o ids, (forall id, In id ids -> spine_selected
   row_of_stage d o ids = row_cells d (o_cats o) (o_enc o) ids.
 Proof. exact select_all_row. Qed.
 Print Assumptions C06_select_all.
+
+(* obligation regenerated from the source on every run: the code this property runs through keeps exactly the state the
+   model knows (no new attribute, class-level table, module-level binding or caching decorator), see proofs/State*Proofs.v *)
+From KV Require Import StateGen StateBase StateExportProofs.
+Theorem C06_state_as_modelled : state_export = modelled_state_export.
+Proof. exact state_export_as_modelled. Qed.
+Print Assumptions C06_state_as_modelled.
